@@ -3,9 +3,9 @@
    checks of the layout constructions at sizes where the trickle DAG is 3 and 4 levels deep
    (w = 2: more than 50 / 250 chunks) and the balanced DAG 6 levels deep. *)
 EXTENDS UnixFSFile
-CONSTANT DeepN
+CONSTANTS DeepN, DeepM
 ASSUME \A n \in DeepN, w \in {2, 3} : LayoutsOK(n, w)
-ASSUME \A n \in {50, 51, 53} : \A m \in {1, 7, 200} :
+ASSUME \A n \in {50, 51, 53} : \A m \in DeepM :
          LET P == [w |-> 2, lk |-> "pb", sz |-> [i \in 1..n |-> ChunkSz]]
              Q == [P EXCEPT !.sz = [i \in 1..m |-> ChunkSz]]
              R == [P EXCEPT !.sz = [i \in 1..(n + m) |-> ChunkSz]]
